@@ -317,6 +317,7 @@ def judge(sc, out):
     disk = None         # table as last written to Veryl.lock
     saved_names = None
     dirty = True        # world or declarations changed since the last regeneration
+    last_regen = None   # table produced by the last successful new/update/flow
     prev_new = None
     for i, (o, info, r) in enumerate(zip(sim.ops, sim.op_info, results)):
         k = o["op"]
@@ -359,6 +360,7 @@ def judge(sc, out):
         if failed:
             if k == "update":
                 cur = None
+            last_regen = None
             j = judge_error(ids, info, r, old, force)
             if j:
                 bad.append((j[0], j[1], i))
@@ -394,7 +396,10 @@ def judge(sc, out):
         else:
             prev_new = None
         # idempotence
-        if k in ("update", "flow") and not force and not dirty and old is not None and (k == "update" or disk is not None):
+        # (only when the table resolution starts from IS the table of the last regeneration: a stale
+        #  Veryl.lock loaded after the declarations moved on may legitimately change)
+        if k in ("update", "flow") and not force and not dirty and old is not None and (k == "update" or disk is not None) \
+                and last_regen is not None and strip_visible(old) == strip_visible(last_regen):
             modified = r["modified"] if k == "update" else r["file_changed"]
             same = strip_visible(tab) == strip_visible(old)
             if modified or not same:
@@ -409,6 +414,7 @@ def judge(sc, out):
             if disk is None or r["file_changed"]:
                 disk = tab
         cur = tab
+        last_regen = tab
         dirty = False
     return bad
 
@@ -564,6 +570,19 @@ def from_replay(rp):
     return G.mk(rp["tag"], rp["repos"], rp["events"], rp.get("backend", "command"))
 
 
+def corpus_files():
+    """corpus/C31/*.json (replay format): minimised failures and hand-written seeds beyond G.corpus()"""
+    d = os.path.join(C.VERIF, "corpus", PID)
+    have = set(x["tag"] for x in G.corpus())
+    out = []
+    for f in sorted(os.listdir(d)) if os.path.isdir(d) else []:
+        if f.endswith(".json"):
+            rp = json.load(open(os.path.join(d, f)))
+            if rp.get("tag") not in have:
+                out.append(from_replay(rp))
+    return out
+
+
 def shrink(binary, scratch, sc, key, budget=30):
     """greedy removal of events while the oracle still reports `key`"""
     cur = sc
@@ -634,8 +653,16 @@ def _run(res, tier, seed, replay, proved, binary, scratch):
         return res.finish()
 
     rng = random.Random(seed * 104729 + 31)
-    n = 44 if tier == "quick" else 700
-    scs = G.corpus() + [G.gen_scenario(rng, i) for i in range(n)]
+    n = 36 if tier == "quick" else 700
+    # what the real semver crate says about the generator's version / requirement pools
+    probe = {"dir": os.path.join(scratch, "probe"), "backend": "command", "versions": G.VERSIONS, "reqs": G.REQS, "ops": []}
+    pr = C.run_lines(binary, [json.dumps(probe)], args=("scenario",), nshards=1)[0]
+    matrix = None
+    if pr.startswith("OK "):
+        sv = json.loads(pr[3:])["semver"]
+        matrix = {(r, v): sv["matches"][j][i] for j, r in enumerate(G.REQS) for i, v in enumerate(G.VERSIONS)}
+    res.obligation("semver probe (order and match matrix of the generator's pools)", matrix is not None, pr[:200])
+    scs = G.corpus() + corpus_files() + [G.gen_scenario(rng, i, matrix) for i in range(n)]
     outs = impl_eval(binary, scs, scratch)
     res.coverage["evaluations"] = 0
     panics = [(i, o["panic"]) for i, o in enumerate(outs) if "panic" in o]
